@@ -5,7 +5,7 @@ use crate::digest::{digest_grammar, digest_graph, digest_table};
 use crate::exec::{Outcome, Prop, Tier, hash64};
 use crate::genr::choices::Choices;
 use crate::genr::yrender::YKind;
-use crate::props::c10::{gen_case, yacc_kind};
+use crate::props::c10::{gen_case, gen_case_opts, yacc_kind};
 use cfgrammar::yacc::YaccGrammar;
 use lrtable::{Minimiser, from_yacc};
 use serde::{Deserialize, Serialize};
@@ -106,7 +106,8 @@ impl Prop for C15 {
     }
     fn decode(&self, choices: &[u32], tier: Tier) -> Value {
         let mut ch = Choices::new(choices);
-        let c = gen_case(&mut ch, tier);
+        // 1/4 from the LR(1)-not-LALR(1) stratum: Pager re-processes and splits states there
+        let c = if ch.chance(1, 4) { gen_case_opts(&mut ch, tier, None, [0, 0, 1, 0]) } else { gen_case(&mut ch, tier) };
         let text = if c.entry == 1 { c.text[crate::props::c10::header_for(c.kind).len()..].to_string() } else { c.text };
         let cross_process = ch.chance(1, 25);
         let mut generated_code = c.kind != YKind::Eco && ch.chance(1, 40);
@@ -133,7 +134,7 @@ impl Prop for C15 {
         .unwrap()
     }
     fn rule(&self) -> String {
-        "Grammars as C10 (all kinds; Eco with 1-3 %implicit_tokens and %avoid_insert sets whose maps are randomly seeded). Oracle: (a) the grammar + state graph + table are built 5 times in-process (fresh hash seeds per HashMap) and every build must give the same digest of all queries (state items with lookaheads per state number, edges, actions, gotos, conflicts as a sorted set); (b) for 1/25 of the cases 3 fresh processes must report the same digest; (c) for 1/40 of the non-Eco cases (and for 1/60 of all cases the lexer alone with a user-supplied rule_ids_map of 3-10 identifier-like names onto ids 0..2, so names share ids) the compile-time builders are run in 3 separate processes on the same paths (output wiped in between) and the generated parser and lexer modules must be byte-identical after masking the build-time comment. (Thread part: see C13's batch.) Evaluation = one grammar. Non-trivial: >=2 implicit tokens, or >=8 states, or conflicts; distinct by hash(text).".into()
+        "Grammars as C10, 1/4 of them from the LR(1)-not-LALR(1) stratum alone (all kinds; Eco with 1-3 %implicit_tokens and %avoid_insert sets whose maps are randomly seeded). Oracle: (a) the grammar + state graph + table are built 5 times in-process (fresh hash seeds per HashMap) and every build must give the same digest of all queries (state items with lookaheads per state number, edges, actions, gotos, conflicts as a sorted set); (b) for 1/25 of the cases 3 fresh processes must report the same digest; (c) for 1/40 of the non-Eco cases (and for 1/60 of all cases the lexer alone with a user-supplied rule_ids_map of 3-10 identifier-like names onto ids 0..2, so names share ids) the compile-time builders are run in 3 separate processes on the same paths (output wiped in between) and the generated parser and lexer modules must be byte-identical after masking the build-time comment. (Thread part: see C13's batch.) Evaluation = one grammar. Non-trivial: >=2 implicit tokens, or >=8 states, or conflicts; distinct by hash(text).".into()
     }
     fn assumptions(&self) -> Vec<String> {
         vec![
